@@ -11,24 +11,28 @@
    list of other requests (any handle, size, offset, kind: going back, other listings) executed
    before every one of its requests.  [C : cfg] carries no_opendir and the VFS inode-conversion
    closure, so the same theorems cover directories listed through the VFS. *)
-From Coq Require Import List NArith Bool.
-From FB Require Import Model.Readdir Proofs.Readdir Proofs.ReaddirStep Proofs.ReaddirListing Proofs.ReaddirInst Proofs.ReaddirScan Proofs.ReaddirFallback.
+From Coq Require Import List NArith Bool Lia.
+From FB Require Import Model.Readdir Proofs.Readdir Proofs.ReaddirStep Proofs.ReaddirListing Proofs.ReaddirInst Proofs.ReaddirScan Proofs.ReaddirFallback Proofs.ReaddirAnyHost.
 Import ListNotations.
 Local Open Scope N_scope.
 
-(* [c_rx C : rfixes] records which of the two proposed repairs of do_readdir the source tree contains
-   (re-read loop for dots-only batches; scan buffer of max(size, 4096)); props/c16.py reads it from the
-   source on every run and the tie validates it.  The current tree has none ([no_rfixes]). *)
+(* [c_rx C : rfixes] records which repairs of do_readdir the source tree contains: the re-read loop for a
+   getdents64 batch that holds only "." / ".." (commit 9ef9710) and the scan buffer of max(size, 4096) in
+   the linear-scan fallback (commit 55956bc).  The code has both ([all_rfixes]); props/c16.py checks that
+   against the source on every run and the tie runs the model with [all_rfixes], so a tree without one of
+   them is reported as a broken tie with a failing history. *)
 
-(* The statement as given: every size only has to hold the next entry.  For the current tree the
-   faithful model REFUTES it: when the getdents64 batch holds only "." / ".." records the reply is
-   empty, which the client reads as end of directory (reproduced on the real code, known finding). *)
-Definition C16_full (X : rfixes) : Prop := C16_full_stmt X.
-Theorem C16_refuted : ~ C16_full no_rfixes.
+(* The statement as given, for the code as it is (hosts whose cookies can be lseek'ed to): every size only
+   has to hold the next entry ([full_size_ok]); then all requests succeed, the concatenated replies are
+   exactly the visible entries from the resume point, in order, each once, and the last reply is empty. *)
+Definition C16_full_for (X : rfixes) : Prop := C16_full_stmt X.
+Theorem C16_full : C16_full_for all_rfixes.
+Proof. exact (C16_full_fixed all_rfixes eq_refl). Qed.
+
+(* The re-read loop is needed: without it the statement is false (what the tree did before commit 9ef9710:
+   a batch of only "." / ".." gave an empty reply, which the client reads as end of directory). *)
+Theorem C16_unrepaired_refuted : ~ C16_full_for no_rfixes.
 Proof. exact C16_full_refuted. Qed.
-(* On a tree with the re-read loop it holds outright (seekable hosts). *)
-Theorem C16_full_when_fixed : forall X, rx_refill X = true -> C16_full X.
-Proof. exact C16_full_fixed. Qed.
 
 (* Proved part, any tree: exactly-once for every size that is adequate for the tree ([size_ok]: on the
    current tree [step_ok] - host records of the "."/".." entries in front of the next visible entry + its
@@ -138,12 +142,29 @@ Theorem C16_resume_safety_any_host : forall plan H C pre rest st off plus replie
   exists s, map (mkd H (c_wrap C) plus) (visible rest) = concat replies ++ s.
 Proof. exact listing_prefix_any_host. Qed.
 
-(* ... while the full statement (sizes only have to hold the next entry) is refuted on such hosts for a
-   second reason, reproduced on the real code over a FUSE mount with cookies above i64::MAX (known
-   finding): the scan re-reads from the start with the client's size and fails with EINVAL on an
-   earlier record that does not fit. *)
-Definition C16_full_any_host (X : rfixes) : Prop := C16_full_any_host_stmt X.
-Theorem C16_refuted_any_host : ~ C16_full_any_host no_rfixes.
+(* The statement as given, for the code as it is, on ANY host whose lseek works or answers EINVAL (cookies
+   above i64::MAX included), provided every host record fits 4096 bytes (NAME_MAX = 255 gives at most 280):
+   resuming through the cache hit, lseek or the linear-scan fallback, every plan whose sizes hold the next
+   entry lists the directory completely, in order, each entry once, ending with an empty reply. *)
+Theorem C16_full_any_host : forall plan H C pre rest st off plus,
+  c_rx C = all_rfixes ->
+  good_dir (pre ++ rest) -> seek_recoverable H -> all_fit 4096 (pre ++ rest) -> lookups_ok H (pre ++ rest) ->
+  wrap_total (c_wrap C) -> InvSt (pre ++ rest) st ->
+  (c_noopendir C = false -> forall m, In m plan -> hs_open (st_h st (ms_handle m)) = true) ->
+  off_at pre off ->
+  plan_ok full_size_ok H C (pre ++ rest) st off plus plan ->
+  (length (visible rest) < length plan)%nat ->
+  exists replies,
+    listing H C (pre ++ rest) st off plus plan = map ROk (replies ++ [[]]) /\
+    concat replies = map (mkd H (c_wrap C) plus) (visible rest).
+Proof. exact listing_complete_any_host. Qed.
+
+(* ... and the scan buffer of max(size, 4096) is needed on such hosts: without it the statement is false
+   (before commit 55956bc the scan re-read from the start with the client's size and failed with EINVAL on
+   an earlier record that does not fit; reproduced on the real code over a FUSE mount with cookies above
+   i64::MAX). *)
+Definition C16_full_any_host_for (X : rfixes) : Prop := C16_full_any_host_stmt X.
+Theorem C16_unrepaired_refuted_any_host : ~ C16_full_any_host_for no_rfixes.
 Proof. exact C16_full_any_host_refuted. Qed.
 
 (* PseudoFs (index offsets), also when reached through the VFS *)
@@ -165,9 +186,11 @@ Proof. exact pseudo_size. Qed.
 Example C16_nonvacuous :
   good_dir w_dir /\ seekable w_host w_dir /\ lookups_ok w_host w_dir /\ InvSt w_dir (init_state [1]) /\
   plan_ok (size_ok no_rfixes) w_host w_cfg w_dir (init_state [1]) 0 false w_plan_ok /\
-  listing w_host w_cfg w_dir (init_state [1]) 0 false w_plan_ok = [ROk [mk_dirent 7 2 8 [97] 0]; ROk []].
+  listing w_host w_cfg w_dir (init_state [1]) 0 false w_plan_ok = [ROk [mk_dirent 7 2 8 [97] 0]; ROk []] /\
+  plan_ok full_size_ok w_host w_cfg_fixed w_dir (init_state [1]) 0 false w_plan.
 Proof.
-  exact (conj w_good (conj w_seekable (conj w_lookups (conj w_inv (conj w_plan_ok_holds w_listing_value))))).
+  refine (conj w_good (conj w_seekable (conj w_lookups (conj w_inv (conj w_plan_ok_holds (conj w_listing_value _)))))).
+  cbn. unfold full_size_ok, spec_size_ok. cbn. repeat split; try discriminate; try lia.
 Qed.
 (* a host where no cookie can be lseek'ed to: cookies above i64::MAX; the listing goes through the
    fallback scan (32-byte replies, one entry each) and is complete *)
@@ -183,8 +206,8 @@ Proof.
   split; [split; [reflexivity|intros c; cbn; destruct (c =? 0); auto]|vm_compute; reflexivity].
 Qed.
 
-(* the two refutation witnesses evaluated on a repaired tree: both listings are complete *)
-Example C16_fixed_tree_witnesses :
+(* the two refutation witnesses evaluated on the code as it is: both listings are complete *)
+Example C16_witnesses :
   listing w_host w_cfg_fixed w_dir (init_state [1]) 0 false w_plan = [ROk [mk_dirent 7 2 8 [97] 0]; ROk []] /\
   listing f_host (mk_cfg true (fun i => ROk i) all_rfixes) f_dir (init_state []) 0 false f_plan
   = [ROk [mk_dirent 7 9223372036854775900 8 (repeat 120 100) 0]; ROk [mk_dirent 7 9223372036854775901 8 [97] 0];
@@ -197,8 +220,8 @@ Example C16_pseudo_nonvacuous :
   = [POk [mk_dirent 5 1 0 [97] 0]; POk [mk_dirent 6 2 0 [98; 99] 0]; POk []].
 Proof. split; [cbn; repeat split; try discriminate; cbv; discriminate|reflexivity]. Qed.
 
-Print Assumptions C16_refuted.
-Print Assumptions C16_full_when_fixed.
+Print Assumptions C16_full.
+Print Assumptions C16_unrepaired_refuted.
 Print Assumptions C16_exactly_once_partial.
 Print Assumptions C16_listing_content.
 Print Assumptions C16_resume_safety.
@@ -210,6 +233,7 @@ Print Assumptions C16_plus_refs.
 Print Assumptions C16_fallback_segment_partial.
 Print Assumptions C16_fallback_scan_partial.
 Print Assumptions C16_resume_safety_any_host.
-Print Assumptions C16_refuted_any_host.
+Print Assumptions C16_full_any_host.
+Print Assumptions C16_unrepaired_refuted_any_host.
 Print Assumptions C16_pseudo_exactly_once.
 Print Assumptions C16_pseudo_size_respected.
